@@ -87,10 +87,11 @@ theorem nothing_pending_after_collection (k : Kernel) (hd : k.deferred = true) :
 
 /-- marked deletions and the manifoldness pass only set flags and unlink caches -/
 theorem markPhase_moves_nothing (k : Kernel) (man : Bool) (hi : LenInv k) :
-    (markPhase k man).props = k.props ∧ (markPhase k man).nV = k.nV ∧ (markPhase k man).deferred = true ∧
+    (markPhase k man).props = k.props ∧ (markPhase k man).nV = k.nV ∧ (markPhase k man).edges = k.edges ∧
+    (markPhase k man).faces = k.faces ∧ (markPhase k man).cells = k.cells ∧ (markPhase k man).deferred = true ∧
     LenInv (markPhase k man) := by
   have q := markPhase_Q k man hi
-  exact ⟨q.props, q.nV, q.dfr, q.len⟩
+  exact ⟨q.props, q.nV, q.edges, q.faces, q.cells, q.dfr, q.len⟩
 
 /-- the overload without handle containers is the tracking overload with empty containers:
     mark phase, `collect_garbage`, restore the deferred flag -/
@@ -152,23 +153,25 @@ theorem tracked_vertex_handles (k : Kernel) (man : Bool) (t : Tracked) (hne : t.
 theorem tracked_cell_handles (k : Kernel) (man : Bool) (t : Tracked) (hne : t.isEmpty = false)
     (hi : LenInv k) (hfr : Fresh k) :
     ∃ ρ : Nat → Option Nat,
-      (∀ i i' j, i < (markPhase k man).nC → i' < (markPhase k man).nC → ρ i = some j → ρ i' = some j → i = i') ∧
-      (∀ j, j < (statusGC k man t).k.nC → ∃ i, i < (markPhase k man).nC ∧ ρ i = some j) ∧
+      (∀ i i' j, i < k.nC → i' < k.nC → ρ i = some j → ρ i' = some j → i = i') ∧
+      (∀ j, j < (statusGC k man t).k.nC → ∃ i, i < k.nC ∧ ρ i = some j) ∧
       (∀ c ∈ k.props.c, ∃ c' ∈ (statusGC k man t).k.props.c, c'.key = c.key ∧ c'.dflt = c.dflt ∧
-          ∀ i j, i < (markPhase k man).nC → ρ i = some j → c'.vals[j]? = c.vals[i]?) ∧
+          ∀ i j, i < k.nC → ρ i = some j → c'.vals[j]? = c.vals[i]?) ∧
       (statusGC k man t).t.c =
-        t.c.map (fun h => if h < 0 then h else if h.toNat ≥ (markPhase k man).nC then h else Spec.optInt (ρ h.toNat)) := by
+        t.c.map (fun h => if h < 0 then h else if h.toNat ≥ k.nC then h else Spec.optInt (ρ h.toNat)) := by
   have q := markPhase_Q k man hi
   have hfr' : Fresh (markPhase k man) := by unfold Fresh; rw [q.props]; exact hfr
   obtain ⟨L, f⟩ := statusGC_tracking k man t hne q.len hfr' q.dfr
-  have kf := kind_facts L.c (markPhase k man).nC f.okC (markPhase k man).props.c q.len.pc t.c
-  rw [q.props] at kf
+  have ok := f.okC; have hn := f.nC; have hnew := f.newC; have hl := q.len.pc
+  rw [q.nC] at ok hn hnew hl
+  rw [q.props] at hl
+  have kf := kind_facts L.c k.nC ok k.props.c hl t.c
   refine ⟨fwdOps L.c, kf.1, ?_, ?_, ?_⟩
-  · intro j hj; rw [f.nC] at hj; exact kf.2.1 j hj
+  · intro j hj; rw [hn] at hj; exact kf.2.1 j hj
   · intro c hc
     refine ⟨Col.runOps L.c c, ?_, rfl, rfl, kf.2.2.1 c hc⟩
     rw [f.props, q.props]; exact List.mem_map.2 ⟨c, hc, rfl⟩
-  · rw [f.tc, f.newC]; exact kf.2.2.2
+  · rw [f.tc, hnew]; exact kf.2.2.2
 
 /-- **Halfedges.**  The halfedge renumbering is the edge renumbering `ρ` with the side kept; every
     edge column *and* every halfedge column is carried; tracked halfedge handles follow it. -/
@@ -176,60 +179,66 @@ theorem tracked_halfedge_handles (k : Kernel) (man : Bool) (t : Tracked) (hne : 
     (hi : LenInv k) (hfr : Fresh k) :
     ∃ (ρ : Nat → Option Nat) (ρh : Nat → Option Nat),
       (∀ e s, s ≤ 1 → ρh (2 * e + s) = (ρ e).map (fun e' => 2 * e' + s)) ∧
-      (∀ i i' j, i < (markPhase k man).nE → i' < (markPhase k man).nE → ρ i = some j → ρ i' = some j → i = i') ∧
-      (∀ j, j < (statusGC k man t).k.nE → ∃ i, i < (markPhase k man).nE ∧ ρ i = some j) ∧
+      (∀ i i' j, i < k.nE → i' < k.nE → ρ i = some j → ρ i' = some j → i = i') ∧
+      (∀ j, j < (statusGC k man t).k.nE → ∃ i, i < k.nE ∧ ρ i = some j) ∧
       (∀ c ∈ k.props.e, ∃ c' ∈ (statusGC k man t).k.props.e, c'.key = c.key ∧ c'.dflt = c.dflt ∧
-          ∀ i j, i < (markPhase k man).nE → ρ i = some j → c'.vals[j]? = c.vals[i]?) ∧
+          ∀ i j, i < k.nE → ρ i = some j → c'.vals[j]? = c.vals[i]?) ∧
       (∀ c ∈ k.props.he, ∃ c' ∈ (statusGC k man t).k.props.he, c'.key = c.key ∧ c'.dflt = c.dflt ∧
-          ∀ i j, i < (markPhase k man).nHE → ρh i = some j → c'.vals[j]? = c.vals[i]?) ∧
+          ∀ i j, i < k.nHE → ρh i = some j → c'.vals[j]? = c.vals[i]?) ∧
       (statusGC k man t).t.he =
-        t.he.map (fun h => if h < 0 then h else if h.toNat ≥ (markPhase k man).nHE then h else Spec.optInt (ρh h.toNat)) := by
+        t.he.map (fun h => if h < 0 then h else if h.toNat ≥ k.nHE then h else Spec.optInt (ρh h.toNat)) := by
   have q := markPhase_Q k man hi
   have hfr' : Fresh (markPhase k man) := by unfold Fresh; rw [q.props]; exact hfr
   obtain ⟨L, f⟩ := statusGC_tracking k man t hne q.len hfr' q.dfr
-  have kf := kind_facts L.e (markPhase k man).nE f.okE (markPhase k man).props.e q.len.pe []
-  have okh := halfOps_ok L.e (markPhase k man).nE f.okE
-  have kh := kind_facts (halfOps L.e) (markPhase k man).nHE okh.1 (markPhase k man).props.he q.len.phe t.he
-  rw [q.props] at kf kh
+  have ok := f.okE; have hn := f.nE; have hnew := f.newHE; have hl := q.len.pe; have hlh := q.len.phe
+  rw [q.nE] at ok hn hl
+  rw [q.nHE] at hnew hlh
+  rw [q.props] at hl hlh
+  have kf := kind_facts L.e k.nE ok k.props.e hl []
+  have okh := halfOps_ok L.e k.nE ok
+  have kh := kind_facts (halfOps L.e) k.nHE okh.1 k.props.he hlh t.he
   refine ⟨fwdOps L.e, fwdOps (halfOps L.e), fun e s hs => halfOps_fwd L.e e s hs, kf.1, ?_, ?_, ?_, ?_⟩
-  · intro j hj; rw [f.nE] at hj; exact kf.2.1 j hj
+  · intro j hj; rw [hn] at hj; exact kf.2.1 j hj
   · intro c hc
     refine ⟨Col.runOps L.e c, ?_, rfl, rfl, kf.2.2.1 c hc⟩
     rw [f.props, q.props]; exact List.mem_map.2 ⟨c, hc, rfl⟩
   · intro c hc
     refine ⟨Col.runOps (halfOps L.e) c, ?_, rfl, rfl, kh.2.2.1 c hc⟩
     rw [f.props, q.props]; exact List.mem_map.2 ⟨c, hc, rfl⟩
-  · rw [f.the, f.newHE]; exact kh.2.2.2
+  · rw [f.the, hnew]; exact kh.2.2.2
 
 /-- **Halffaces.** -/
 theorem tracked_halfface_handles (k : Kernel) (man : Bool) (t : Tracked) (hne : t.isEmpty = false)
     (hi : LenInv k) (hfr : Fresh k) :
     ∃ (ρ : Nat → Option Nat) (ρh : Nat → Option Nat),
       (∀ f s, s ≤ 1 → ρh (2 * f + s) = (ρ f).map (fun f' => 2 * f' + s)) ∧
-      (∀ i i' j, i < (markPhase k man).nF → i' < (markPhase k man).nF → ρ i = some j → ρ i' = some j → i = i') ∧
-      (∀ j, j < (statusGC k man t).k.nF → ∃ i, i < (markPhase k man).nF ∧ ρ i = some j) ∧
+      (∀ i i' j, i < k.nF → i' < k.nF → ρ i = some j → ρ i' = some j → i = i') ∧
+      (∀ j, j < (statusGC k man t).k.nF → ∃ i, i < k.nF ∧ ρ i = some j) ∧
       (∀ c ∈ k.props.f, ∃ c' ∈ (statusGC k man t).k.props.f, c'.key = c.key ∧ c'.dflt = c.dflt ∧
-          ∀ i j, i < (markPhase k man).nF → ρ i = some j → c'.vals[j]? = c.vals[i]?) ∧
+          ∀ i j, i < k.nF → ρ i = some j → c'.vals[j]? = c.vals[i]?) ∧
       (∀ c ∈ k.props.hf, ∃ c' ∈ (statusGC k man t).k.props.hf, c'.key = c.key ∧ c'.dflt = c.dflt ∧
-          ∀ i j, i < (markPhase k man).nHF → ρh i = some j → c'.vals[j]? = c.vals[i]?) ∧
+          ∀ i j, i < k.nHF → ρh i = some j → c'.vals[j]? = c.vals[i]?) ∧
       (statusGC k man t).t.hf =
-        t.hf.map (fun h => if h < 0 then h else if h.toNat ≥ (markPhase k man).nHF then h else Spec.optInt (ρh h.toNat)) := by
+        t.hf.map (fun h => if h < 0 then h else if h.toNat ≥ k.nHF then h else Spec.optInt (ρh h.toNat)) := by
   have q := markPhase_Q k man hi
   have hfr' : Fresh (markPhase k man) := by unfold Fresh; rw [q.props]; exact hfr
   obtain ⟨L, f⟩ := statusGC_tracking k man t hne q.len hfr' q.dfr
-  have kf := kind_facts L.f (markPhase k man).nF f.okF (markPhase k man).props.f q.len.pf []
-  have okh := halfOps_ok L.f (markPhase k man).nF f.okF
-  have kh := kind_facts (halfOps L.f) (markPhase k man).nHF okh.1 (markPhase k man).props.hf q.len.phf t.hf
-  rw [q.props] at kf kh
+  have ok := f.okF; have hn := f.nF; have hnew := f.newHF; have hl := q.len.pf; have hlh := q.len.phf
+  rw [q.nF] at ok hn hl
+  rw [q.nHF] at hnew hlh
+  rw [q.props] at hl hlh
+  have kf := kind_facts L.f k.nF ok k.props.f hl []
+  have okh := halfOps_ok L.f k.nF ok
+  have kh := kind_facts (halfOps L.f) k.nHF okh.1 k.props.hf hlh t.hf
   refine ⟨fwdOps L.f, fwdOps (halfOps L.f), fun e s hs => halfOps_fwd L.f e s hs, kf.1, ?_, ?_, ?_, ?_⟩
-  · intro j hj; rw [f.nF] at hj; exact kf.2.1 j hj
+  · intro j hj; rw [hn] at hj; exact kf.2.1 j hj
   · intro c hc
     refine ⟨Col.runOps L.f c, ?_, rfl, rfl, kf.2.2.1 c hc⟩
     rw [f.props, q.props]; exact List.mem_map.2 ⟨c, hc, rfl⟩
   · intro c hc
     refine ⟨Col.runOps (halfOps L.f) c, ?_, rfl, rfl, kh.2.2.1 c hc⟩
     rw [f.props, q.props]; exact List.mem_map.2 ⟨c, hc, rfl⟩
-  · rw [f.thf, f.newHF]; exact kh.2.2.2
+  · rw [f.thf, hnew]; exact kh.2.2.2
 
 /-- nothing is pending after the call, whatever the deferred flag was -/
 theorem nothing_pending_after_statusGC (k : Kernel) (man : Bool) (t : Tracked) (hne : t.isEmpty = false)
